@@ -66,10 +66,10 @@ section step
 variable {f g : Nat} (ih : ExprStab f g)
 include ih
 
-theorem expression_sstep (s) : Stab (expression (f+1) s) (expression (g+1) s) := by
+theorem expression_stabstep (s) : Stab (expression (f+1) s) (expression (g+1) s) := by
   simp only [P.expression]; exact ih.assignment s
 
-theorem assignment_sstep (s) : Stab (assignment (f+1) s) (assignment (g+1) s) := by
+theorem assignment_stabstep (s) : Stab (assignment (f+1) s) (assignment (g+1) s) := by
   simp only [P.assignment]
   apply Stab.bind (ih.orE s)
   intro e s1
@@ -83,22 +83,22 @@ theorem assignment_sstep (s) : Stab (assignment (f+1) s) (assignment (g+1) s) :=
     intro value s4
     exact Stab.refl _
 
-theorem orE_sstep (s) : Stab (orE (f+1) s) (orE (g+1) s) := by
+theorem orE_stabstep (s) : Stab (orE (f+1) s) (orE (g+1) s) := by
   simp only [P.orE]
   exact Stab.bind (ih.andE s) (fun e s1 => ih.orLoop e s1)
 
-theorem orLoop_sstep (l s) : Stab (orLoop (f+1) l s) (orLoop (g+1) l s) := by
+theorem orLoop_stabstep (l s) : Stab (orLoop (f+1) l s) (orLoop (g+1) l s) := by
   simp only [P.orLoop]
   apply Stab.bind_same; intro m s1
   cases m with
   | none => exact Stab.refl _
   | some tok => exact Stab.bind (ih.andE _) (fun r s2 => ih.orLoop _ s2)
 
-theorem andE_sstep (s) : Stab (andE (f+1) s) (andE (g+1) s) := by
+theorem andE_stabstep (s) : Stab (andE (f+1) s) (andE (g+1) s) := by
   simp only [P.andE]
   exact Stab.bind (ih.binLevel _ s) (fun e s1 => ih.andLoop e s1)
 
-theorem andLoop_sstep (l s) : Stab (andLoop (f+1) l s) (andLoop (g+1) l s) := by
+theorem andLoop_stabstep (l s) : Stab (andLoop (f+1) l s) (andLoop (g+1) l s) := by
   simp only [P.andLoop]
   apply Stab.bind_same; intro m s1
   cases m with
@@ -112,11 +112,11 @@ theorem stab_operand (lvl : BinLevel) (s) :
   | some n => exact ih.binLevel n s
   | none => exact ih.unary s
 
-theorem binLevel_sstep (lvl s) : Stab (binLevel (f+1) lvl s) (binLevel (g+1) lvl s) := by
+theorem binLevel_stabstep (lvl s) : Stab (binLevel (f+1) lvl s) (binLevel (g+1) lvl s) := by
   simp only [P.binLevel]
   exact Stab.bind (stab_operand ih lvl s) (fun e s1 => ih.binLoop lvl e s1)
 
-theorem binLoop_sstep (lvl l s) : Stab (binLoop (f+1) lvl l s) (binLoop (g+1) lvl l s) := by
+theorem binLoop_stabstep (lvl l s) : Stab (binLoop (f+1) lvl l s) (binLoop (g+1) lvl l s) := by
   simp only [P.binLoop]
   apply Stab.bind_same; intro m s1
   cases m with
@@ -129,21 +129,21 @@ theorem binLoop_sstep (lvl l s) : Stab (binLoop (f+1) lvl l s) (binLoop (g+1) lv
     | none => exact Stab.refl _
     | some op => exact ih.binLoop lvl _ s2
 
-theorem unary_sstep (s) : Stab (unary (f+1) s) (unary (g+1) s) := by
+theorem unary_stabstep (s) : Stab (unary (f+1) s) (unary (g+1) s) := by
   simp only [P.unary]
   apply Stab.bind_same; intro m s1
   cases m with
   | none => exact ih.access s1
   | some tok => exact Stab.bind (ih.unary _) (fun r s2 => Stab.refl _)
 
-theorem access_sstep (s) : Stab (access (f+1) s) (access (g+1) s) := by
+theorem access_stabstep (s) : Stab (access (f+1) s) (access (g+1) s) := by
   simp only [P.access]
   apply Stab.bind (ih.primary s)
   intro e s1
   apply Stab.bind_same; intro t s2
   exact ih.accessLoop t e s2
 
-theorem accessLoop_sstep (t e s) : Stab (accessLoop (f+1) t e s) (accessLoop (g+1) t e s) := by
+theorem accessLoop_stabstep (t e s) : Stab (accessLoop (f+1) t e s) (accessLoop (g+1) t e s) := by
   simp only [P.accessLoop]
   apply Stab.bind_same; intro m s1
   cases m with
@@ -155,7 +155,7 @@ theorem accessLoop_sstep (t e s) : Stab (accessLoop (f+1) t e s) (accessLoop (g+
     apply Stab.bind_same; intro rb s3
     exact ih.accessLoop t _ s3
 
-theorem callArgs_sstep (a t s) : Stab (callArgs (f+1) a t s) (callArgs (g+1) a t s) := by
+theorem callArgs_stabstep (a t s) : Stab (callArgs (f+1) a t s) (callArgs (g+1) a t s) := by
   simp only [P.callArgs]
   apply Stab.ite (Stab.refl _)
   apply Stab.bind (ih.expression s)
@@ -166,7 +166,7 @@ theorem callArgs_sstep (a t s) : Stab (callArgs (f+1) a t s) (callArgs (g+1) a t
   | none => exact Stab.refl _
   | some _ => exact ih.callArgs _ _ s3
 
-theorem listItems_sstep (a s) : Stab (listItems (f+1) a s) (listItems (g+1) a s) := by
+theorem listItems_stabstep (a s) : Stab (listItems (f+1) a s) (listItems (g+1) a s) := by
   simp only [P.listItems]
   apply Stab.bind (ih.expression s)
   intro e s1
@@ -175,7 +175,7 @@ theorem listItems_sstep (a s) : Stab (listItems (f+1) a s) (listItems (g+1) a s)
   | none => exact Stab.refl _
   | some _ => exact ih.listItems _ s3
 
-theorem primary_sstep (s) : Stab (primary (f+1) s) (primary (g+1) s) := by
+theorem primary_stabstep (s) : Stab (primary (f+1) s) (primary (g+1) s) := by
   simp only [P.primary]
   apply Stab.bind_same; intro m s
   cases m with
@@ -237,11 +237,11 @@ theorem primary_sstep (s) : Stab (primary (f+1) s) (primary (g+1) s) := by
 end step
 
 theorem exprStab_succ {f g : Nat} (ih : ExprStab f g) : ExprStab (f+1) (g+1) :=
-  { expression := expression_sstep ih, assignment := assignment_sstep ih, orE := orE_sstep ih,
-    orLoop := orLoop_sstep ih, andE := andE_sstep ih, andLoop := andLoop_sstep ih,
-    binLevel := binLevel_sstep ih, binLoop := binLoop_sstep ih, unary := unary_sstep ih,
-    access := access_sstep ih, accessLoop := accessLoop_sstep ih, primary := primary_sstep ih,
-    callArgs := callArgs_sstep ih, listItems := listItems_sstep ih }
+  { expression := expression_stabstep ih, assignment := assignment_stabstep ih, orE := orE_stabstep ih,
+    orLoop := orLoop_stabstep ih, andE := andE_stabstep ih, andLoop := andLoop_stabstep ih,
+    binLevel := binLevel_stabstep ih, binLoop := binLoop_stabstep ih, unary := unary_stabstep ih,
+    access := access_stabstep ih, accessLoop := accessLoop_stabstep ih, primary := primary_stabstep ih,
+    callArgs := callArgs_stabstep ih, listItems := listItems_stabstep ih }
 
 /-- **strong fuel monotonicity** of the expression ladder -/
 theorem exprStab : ∀ {f g : Nat}, f ≤ g → ExprStab f g
@@ -329,14 +329,14 @@ variable {f g : Nat} (hfg : f ≤ g) (ih : StmtStab f g)
 include hfg ih
 
 omit hfg in
-theorem declaration_sstep (s) : Stab (declaration (f+1) s) (declaration (g+1) s) := by
+theorem declaration_stabstep (s) : Stab (declaration (f+1) s) (declaration (g+1) s) := by
   simp only [P.declaration]
   apply Stab.bind_same; intro m s1
   cases m with
   | some t => exact ih.procedure t s1
   | none => exact ih.statement s1
 
-theorem procedure_sstep (t s) : Stab (procedure (f+1) t s) (procedure (g+1) t s) := by
+theorem procedure_stabstep (t s) : Stab (procedure (f+1) t s) (procedure (g+1) t s) := by
   simp only [P.procedure]
   apply Stab.bind_same; intro pe s1
   obtain ⟨procTok, exported⟩ := pe
@@ -351,7 +351,7 @@ theorem procedure_sstep (t s) : Stab (procedure (f+1) t s) (procedure (g+1) t s)
     exact Stab.bind (ih.statement _) (fun body s7 => Stab.refl _)
 
 omit hfg in
-theorem blockLoop_sstep (acc s) : Stab (blockLoop (f+1) acc s) (blockLoop (g+1) acc s) := by
+theorem blockLoop_stabstep (acc s) : Stab (blockLoop (f+1) acc s) (blockLoop (g+1) acc s) := by
   simp only [P.blockLoop]
   apply Stab.bind_same; intro c s1
   apply Stab.bind_same; intro e s2
@@ -361,7 +361,7 @@ theorem blockLoop_sstep (acc s) : Stab (blockLoop (f+1) acc s) (blockLoop (g+1) 
   | some _ => exact ih.blockLoop acc s3
   | none => exact Stab.bind (ih.declaration s3) (fun st s4 => ih.blockLoop _ s4)
 
-theorem ifStatement_sstep (t s) : Stab (ifStatement (f+1) t s) (ifStatement (g+1) t s) := by
+theorem ifStatement_stabstep (t s) : Stab (ifStatement (f+1) t s) (ifStatement (g+1) t s) := by
   simp only [P.ifStatement]
   apply Stab.bind_same; intro _ s1
   apply Stab.bind ((exprStab hfg).expression s1); intro cond s2
@@ -372,7 +372,7 @@ theorem ifStatement_sstep (t s) : Stab (ifStatement (f+1) t s) (ifStatement (g+1
   | some et => exact Stab.bind (ih.statement s5) (fun els s6 => Stab.refl _)
   | none => exact Stab.refl _
 
-theorem repeatTimes_sstep (t s) : Stab (repeatTimes (f+1) t s) (repeatTimes (g+1) t s) := by
+theorem repeatTimes_stabstep (t s) : Stab (repeatTimes (f+1) t s) (repeatTimes (g+1) t s) := by
   simp only [P.repeatTimes]
   apply Stab.bind_same; intro _ s1
   apply Stab.bind ((exprStab hfg).expression s1); intro count s2
@@ -380,7 +380,7 @@ theorem repeatTimes_sstep (t s) : Stab (repeatTimes (f+1) t s) (repeatTimes (g+1
   apply Stab.bind_same; intro tt s4
   exact Stab.bind (ih.statement s4) (fun body s5 => Stab.refl _)
 
-theorem repeatUntil_sstep (t s) : Stab (repeatUntil (f+1) t s) (repeatUntil (g+1) t s) := by
+theorem repeatUntil_stabstep (t s) : Stab (repeatUntil (f+1) t s) (repeatUntil (g+1) t s) := by
   simp only [P.repeatUntil]
   apply Stab.bind_same; intro _ s1
   apply Stab.bind_same; intro ut s2
@@ -389,7 +389,7 @@ theorem repeatUntil_sstep (t s) : Stab (repeatUntil (f+1) t s) (repeatUntil (g+1
   apply Stab.bind_same; intro _ s5
   exact Stab.bind (ih.statement s5) (fun body s6 => Stab.refl _)
 
-theorem forEach_sstep (t s) : Stab (forEach (f+1) t s) (forEach (g+1) t s) := by
+theorem forEach_stabstep (t s) : Stab (forEach (f+1) t s) (forEach (g+1) t s) := by
   simp only [P.forEach]
   apply Stab.bind_same; intro _ s1
   apply Stab.bind_same; intro et s2
@@ -399,7 +399,7 @@ theorem forEach_sstep (t s) : Stab (forEach (f+1) t s) (forEach (g+1) t s) := by
   apply Stab.bind_same; intro lt s6
   exact Stab.bind (ih.statement s6) (fun body s7 => Stab.refl _)
 
-theorem statement_sstep (s) : Stab (statement (f+1) s) (statement (g+1) s) := by
+theorem statement_stabstep (s) : Stab (statement (f+1) s) (statement (g+1) s) := by
   simp only [P.statement]
   apply Stab.bind_same; intro m s1
   cases m with
@@ -453,10 +453,10 @@ theorem statement_sstep (s) : Stab (statement (f+1) s) (statement (g+1) s) := by
 end sstep
 
 theorem stmtStab_succ {f g : Nat} (hfg : f ≤ g) (ih : StmtStab f g) : StmtStab (f+1) (g+1) :=
-  { declaration := declaration_sstep ih, procedure := procedure_sstep hfg ih,
-    statement := statement_sstep hfg ih, blockLoop := blockLoop_sstep ih,
-    ifStatement := ifStatement_sstep hfg ih, repeatTimes := repeatTimes_sstep hfg ih,
-    repeatUntil := repeatUntil_sstep hfg ih, forEach := forEach_sstep hfg ih }
+  { declaration := declaration_stabstep ih, procedure := procedure_stabstep hfg ih,
+    statement := statement_stabstep hfg ih, blockLoop := blockLoop_stabstep ih,
+    ifStatement := ifStatement_stabstep hfg ih, repeatTimes := repeatTimes_stabstep hfg ih,
+    repeatUntil := repeatUntil_stabstep hfg ih, forEach := forEach_stabstep hfg ih }
 
 /-- **strong fuel monotonicity** of the statement functions -/
 theorem stmtStab : ∀ {f g : Nat}, f ≤ g → StmtStab f g
